@@ -17,8 +17,20 @@ impl StringBlock {
     pub fn parse<R: Read + Seek>(reader: &mut R, offset: u64, size: u32) -> Result<Self> {
         reader.seek(SeekFrom::Start(offset))?;
 
-        let mut data = vec![0u8; size as usize];
-        reader.read_exact(&mut data)?;
+        // `size` comes straight from the file header: read what is there (bounded by
+        // `size`) instead of allocating `size` bytes up front, then insist on all of it
+        let mut data = Vec::new();
+        reader
+            .by_ref()
+            .take(u64::from(size))
+            .read_to_end(&mut data)?;
+        if data.len() != size as usize {
+            return Err(std::io::Error::new(
+                std::io::ErrorKind::UnexpectedEof,
+                "string block is shorter than the header announces",
+            )
+            .into());
+        }
 
         Ok(Self { data })
     }
